@@ -242,7 +242,9 @@ def floyd_warshall_facade(adj, *a, **k):
     adj = _np.asarray(adj)
     if adj.dtype == object:
         adj = symnp.concretize_array(adj)
-    return fw(adj, *a, **k)
+    r = fw(adj, *a, **k)
+    # returned as a facade array so that a (possibly symbolic) mask used to index it is concretised
+    return r.astype(object).view(symnp.SymArray)
 
 
 def cdist_facade(a, b, *args, **kw):
@@ -371,3 +373,76 @@ def facade(sx, extra=None, random_only=False):
         finally:
             for d, k, v in undo:
                 d[k] = v
+
+
+# --------------------------------------------------------------------------
+def merged_max(*args, key=None, **kw):
+    """builtin max with If-merging on symbolic numbers (identical value semantics, no fork)"""
+    import builtins
+    if key is not None:
+        return builtins.max(*args, key=key, **kw)
+    xs = list(args[0]) if len(args) == 1 else list(args)
+    if not xs:
+        if 'default' in kw:
+            return kw['default']
+        raise ValueError("max() arg is an empty sequence")
+    if not any(is_sym(x) for x in xs):
+        return builtins.max(xs)
+    r = xs[0]
+    for x in xs[1:]:
+        r = core.smax2(r, x)
+    return r
+
+
+def merged_min(*args, key=None, **kw):
+    import builtins
+    if key is not None:
+        return builtins.min(*args, key=key, **kw)
+    xs = list(args[0]) if len(args) == 1 else list(args)
+    if not xs:
+        if 'default' in kw:
+            return kw['default']
+        raise ValueError("min() arg is an empty sequence")
+    if not any(is_sym(x) for x in xs):
+        return builtins.min(xs)
+    r = xs[0]
+    for x in xs[1:]:
+        r = core.smin2(r, x)
+    return r
+
+
+@contextlib.contextmanager
+def shadow(sx, module_names, names=('max', 'min')):
+    """SYM mode only: give the named modules merging versions of builtins max/min"""
+    if sx.mode != 'sym':
+        yield
+        return
+    impl = {'max': merged_max, 'min': merged_min}
+    undo = []
+    for mn in module_names:
+        d = sys.modules[mn].__dict__
+        for n in names:
+            undo.append((d, n, d.get(n, None), n in d))
+            d[n] = impl[n]
+    try:
+        yield
+    finally:
+        for d, n, old, had in undo:
+            if had:
+                d[n] = old
+            else:
+                d.pop(n, None)
+
+
+@contextlib.contextmanager
+def fork_isclose(merge=False):
+    """decide isclose (and, unless merge=True, max/min/abs) by forking: more paths, purely linear queries"""
+    old = symnp.FORK_ISCLOSE[0]
+    oldm = core.MERGE[0]
+    symnp.FORK_ISCLOSE[0] = True
+    core.MERGE[0] = merge
+    try:
+        yield
+    finally:
+        symnp.FORK_ISCLOSE[0] = old
+        core.MERGE[0] = oldm
